@@ -312,7 +312,7 @@ class G:
             return ""
         ps = []
         for _ in range(self.r.randrange(1, 4)):
-            ps.append(self.ch(["'a", "'b", "T", "U", "T: Clone", "'a, 'b: 'a", "const N: usize", "T = i32", "U: Into<T> + 'a"]))
+            ps.append(self.ch(["'a", "'b", "T", "U", "T: Clone", "'a, 'b: 'a", "const N: usize", "T = i32", "U: Clone + Default", "T: 'static + Copy"]))
         # unique names
         seen, out = set(), []
         for prm in ", ".join(ps).split(", "):
@@ -442,6 +442,8 @@ class G:
         for k in range(nf):
             fa = []
             mode = r.randrange(10)
+            if self.pr("parent_heavy", 0.0):
+                mode = self.ch([6, 7, 7, 7, 8])
             if mode < 6:
                 pth = self.ch(paths)
                 pth = pth[: r.randrange(1, len(pth) + 1)]
@@ -456,7 +458,7 @@ class G:
                 ded = (self.ch(cparts) + "| ") if self.pr("dedicated", 0.25) else ""
                 fa.append(Instr("parent", (ded.rstrip("| ") if ded else None) if self.pr("bare_parent_ded", 0.3) else None, tag=("parent", None)))
             elif mode == 7:
-                fa.append(Instr("parent", self.parent_args(2), tag=("parent", None)))
+                fa.append(Instr("parent", self.parent_args(self.p.get("parent_depth", 2)), tag=("parent", None)))
             else:
                 if self.pr("member_instr", 0.35):
                     fa.append(self.member_map_instr(cparts, target_named=True, nfields=nf))
@@ -476,6 +478,51 @@ class G:
                     f.name = NAMES[k]
         it = Item("struct", name, shape, self.generics(), attrs, fields)
         it.meta["cparts"] = cparts
+        return it
+
+    def trait_repeat_item(self, name="S"):
+        """sequences of trait instructions of the same name over several counterparts with repeat / skip / stop placements"""
+        r = self.r
+        is_enum = self.pr("enum_item", 0.3)
+        names = [self.ch(ALL24 if self.pr("fallible", 0.3) else MAP12) for _ in range(r.randrange(1, 3))]
+        if is_enum:
+            names = [n for n in names if "existing" not in n] or ["map"]
+        cps = ["A", "B", "C", "m::D", "E5", "F6", "G<i32>"]
+        r.shuffle(cps)
+        attrs = []
+        k = 0
+        for c in cps[: r.randrange(2, 7)]:
+            nm = self.ch(names)
+            _, fall = kinds_of(nm)
+            s = c + (", MyErr" if fall else "")
+            ps = []
+            mark = self.ch(["", "", "repeat()", "repeat(vars)", "repeat(update)", "repeat(quick_return)", "repeat(vars, update)", "skip_repeat", "stop_repeat",
+                            "stop_repeat, repeat()", "stop_repeat, repeat(vars)", "repeat(default_case)"])
+            if mark:
+                ps.append(mark)
+            if self.pr("vars", 0.4):
+                ps.append(f"vars(v{k}: {{ {self.ch(['1', '@.x', 'foo()'])} }})")
+            if self.pr("attr_params", 0.1):
+                ps.append("attribute(inline)")
+            r.shuffle(ps)
+            t = r.random()
+            if t < 0.3:
+                ps.append(".." + self.ch(["Default::default()", "base()"]))
+            elif t < 0.45:
+                ps.append("return " + self.ch(["Foo(@.0)", "mk(&@)"]))
+            elif t < 0.6 and is_enum:
+                ps.append("_ => " + self.ch(["todo!()", "panic!(\"no\")"]))
+            if ps:
+                s += " | " + ", ".join(ps)
+            attrs.append(Instr(nm, s, tag=("trait", c)))
+            k += 1
+        if is_enum:
+            vs = [Variant(f"V{m}", "unit", [], [Instr("literal", str(m), tag=("lit", None))] if self.pr("lit", 0.3) else []) for m in range(r.randrange(1, 3))]
+            it = Item("enum", "E", "enum", "", attrs, variants=vs)
+        else:
+            fields = [Field(NAMES[m], "i32", []) for m in range(r.randrange(0, 3))]
+            it = Item("struct", name, "named", "", attrs, fields)
+        it.meta["cparts"] = cps
         return it
 
     def parent_args(self, depth):
@@ -520,11 +567,14 @@ PROFILES = {
     "generics": {"generics": 1.0, "generic_cpart": 0.7, "where_clause": 0.5, "max_fields": 2, "trailing_comma": 0.2, "multi_cpart": 0.3, "fallible": 0.3, "dedicated": 0.4},
     "expr": {"deep_expr": 0.8, "member_instr": 0.7, "ghost_field": 0.2, "ghosts": 0.2, "vars": 0.4, "update": 0.3, "quick_return": 0.15, "default_case": 0.3,
              "variant_map": 0.5, "max_fields": 3},
+    "parents": {"parent_heavy": 0.8, "parent_depth": 3, "nested_parent": 0.45, "nested_instr": 0.5, "max_fields": 4, "fallible": 0.3, "multi_cpart": 0.3, "hints": 0.3,
+                "dedicated": 0.3, "member_instr": 0.3, "update": 0.1, "vars": 0.1},
+    "trait-repeat": {"vars": 0.4, "fallible": 0.3, "attr_params": 0.1, "enum_item": 0.3, "lit": 0.3},
     "faults": {"max_fields": 3, "member_instr": 0.4, "multi_cpart": 0.3, "fallible": 0.4, "drop_err": 0.15, "extra_err": 0.1, "ghost_field": 0.2, "ghost_default": 0.5,
                "dedicated": 0.4, "ghosts": 0.2, "where_clause": 0.2, "hints": 0.4, "drop_child_parents": 0.3, "drop_cp_entry": 0.2, "type_hint": 0.3},
 }
 
-KINDS_OF_ITEM = {"enum": ["enum"], "enum-prim": ["enum"], "tree": ["tree"], "repeat": ["struct", "enum"], "multi-counterpart": ["struct", "enum", "tree"],
+KINDS_OF_ITEM = {"parents": ["tree"], "trait-repeat": ["trait_repeat"], "enum": ["enum"], "enum-prim": ["enum"], "tree": ["tree"], "repeat": ["struct", "enum"], "multi-counterpart": ["struct", "enum", "tree"],
                  "trait-params": ["struct", "enum"], "generics": ["struct", "enum"], "expr": ["struct", "enum"], "faults": ["struct", "enum", "tree"],
                  "traits": ["struct", "enum"], "struct-flat": ["struct"], "member-instrs": ["struct"]}
 
@@ -535,7 +585,7 @@ def gen_items(profile, seed, n):
     out = []
     for k in range(n):
         kind = g.ch(kinds)
-        it = {"struct": g.struct, "enum": g.enum, "tree": g.tree}[kind]()
+        it = {"struct": g.struct, "enum": g.enum, "tree": g.tree, "trait_repeat": g.trait_repeat_item}[kind]()
         it.meta["id"] = f"{profile}-{seed}-{k}"
         out.append(it)
     return out
